@@ -210,6 +210,9 @@ class Temp:
   def __init__(self, items):
     self.items = items
 
+  def __getitem__(self, i):
+    return [self.items[i]]  # a fresh temporary, like flatten
+
 
 def _register_temp():
   try:
